@@ -20,7 +20,7 @@ pub struct Case {
     pub corrupt: Option<(u64, bool)>,
 }
 
-fn to_json(c: &Case) -> Value {
+pub fn to_json(c: &Case) -> Value {
     let mut v = c.build.to_json();
     v["corrupt_seed"] = match c.corrupt {
         Some((s, _)) => json!(s.to_string()),
